@@ -1039,6 +1039,58 @@ func r089(c *Ctx, r *R) {
 			if mk != nil {
 				nMake++
 				k, isK := constInt(mk.Len)
+				if !(isK && k == 0) {
+					// reserved slots that are filled by index
+					// (`nodes := make([]T, 1, n); ...append...; nodes[0] = x`)
+					filled := false
+					instrs(f, func(i ssa.Instruction) {
+						ia, ok := i.(*ssa.IndexAddr)
+						if !ok || ia.Referrers() == nil {
+							return
+						}
+						stored := false
+						for _, ref := range *ia.Referrers() {
+							if st, ok := ref.(*ssa.Store); ok && st.Addr == ssa.Value(ia) {
+								stored = true
+							}
+						}
+						if !stored {
+							return
+						}
+						seen2 := map[ssa.Value]bool{}
+						var from func(v ssa.Value, d int) bool
+						from = func(v ssa.Value, d int) bool {
+							if v == nil || seen2[v] || d > 8 {
+								return false
+							}
+							seen2[v] = true
+							switch x := v.(type) {
+							case *ssa.MakeSlice:
+								return x == mk
+							case *ssa.Phi:
+								for _, e := range x.Edges {
+									if from(e, d+1) {
+										return true
+									}
+								}
+							case *ssa.Call:
+								if callName(x.Common()) == "builtin.append" {
+									return from(x.Common().Args[0], d+1)
+								}
+							case *ssa.Slice:
+								return from(x.X, d+1)
+							}
+							return false
+						}
+						if from(ia.X, 0) {
+							filled = true
+						}
+					})
+					if filled {
+						r.OK("append-onto-empty:"+f.String(), call.Pos(), "the made slice's leading slots are filled by index")
+						continue
+					}
+				}
 				r.Check(isK && k == 0, "append-onto-empty:"+f.String(), call.Pos(), "appends start from an empty slice (make with length 0)", f.Name()+" appends onto a slice it made with a non-zero length: the result begins with that many zero entries (empty byte strings, nil pointers) in front of the appended ones")
 			}
 		}
